@@ -2,6 +2,7 @@
 import subprocess
 
 import lvlib
+from checks import findings as F
 from gen import c17c20
 
 
@@ -15,6 +16,13 @@ def run(ctx):
 
     def failures(impl):
         f = ctx.sc_check(programs, impl, 60000 if ctx.quick else 400000)
+        # the reference destroys a thread's thread-locals in any order, the property fixes none: when the order
+        # is observable (destructors that store, two keys in one thread) the implementation need not show all
+        two_keys = lambda p: "tlsdtor=1" in p and any(  # noqa: E731
+            {"0", "1"} <= {x for o in ops if o[0].startswith("tls") for x in o[1:]} for ops in F.threads_of(p))
+        dropped = [x for x in f if x[1] == "missing" and two_keys(x[0])]
+        ctx.cov["order_dependent_outcomes_not_demanded"] = len(dropped)
+        f = [x for x in f if x not in dropped]
         # two thread-locals whose destructors perform loom operations: the order (and with it the
         # exploration) must not depend on the process (F14, repaired: it depended on a HashMap's RandomState)
         w = "cfg tlsdtor=1 x=1 | T0: spawn 1; ld 0 rlx; join 1; ld 0 rlx | T1: tls 0; tls 1"
